@@ -672,4 +672,234 @@ omit [LinearOrder F] [IsStrictOrderedRing F] in
 theorem convex_sum (a b t : F) : (t * a + (1 - t) * b) + (t * b + (1 - t) * a) = a + b := by ring
 end
 
+/-! ### components -/
+
+
+theorem gated_length (mask : List Bool) (vals sol : List α) : (gated mask vals sol).length = sol.length := by
+  fun_induction gated mask vals sol <;> simp_all
+
+theorem gated_all_false (mask : List Bool) (vals sol : List α) (h : mask.all (!·) = true) :
+    gated mask vals sol = sol := by
+  fun_induction gated mask vals sol <;> simp_all
+
+theorem gated_positionwise (mask : List Bool) (vals sol : List α) (i : Nat) :
+    (gated mask vals sol)[i]? = sol[i]? ∨ (gated mask vals sol)[i]? = vals[i]? := by
+  fun_induction gated mask vals sol generalizing i with
+  | case1 m ms v vs x xs ih =>
+    cases i with
+    | zero => cases m <;> simp
+    | succ i => simpa using ih i
+  | case2 => left; rfl
+
+theorem reverseSlice_perm (sol : List α) (s e : Nat) (h1 : s ≤ e) (h2 : e ≤ sol.length) :
+    ∃ r, reverseSlice sol s e = some r ∧ r.Perm sol := by
+  unfold reverseSlice
+  have : ¬ (e < s ∨ sol.length < e) := by omega
+  simp only [this, if_false]
+  refine ⟨_, rfl, ?_⟩
+  have hl : sol = sol.take s ++ ((sol.drop s).take (e - s) ++ sol.drop e) := by
+    apply List.ext_getElem?
+    intro n
+    simp only [List.getElem?_append, List.getElem?_take, List.getElem?_drop, List.length_take, List.length_drop]
+    grind
+  conv => rhs; rw [hl]
+  rw [List.append_assoc]
+  exact List.Perm.append_left _ (List.Perm.append_right _ (List.reverse_perm _))
+
+theorem permuteBy_map_some (σ : List Nat) (l r : List α) (h : permuteBy σ l = some r) :
+    r.map some = σ.map (l[·]?) := by
+  unfold permuteBy at h
+  induction σ generalizing r with
+  | nil => simp at h; simp [h]
+  | cons a t ih =>
+    simp only [List.mapM_cons] at h
+    cases ha : l[a]? with
+    | none => simp [ha] at h
+    | some b =>
+      cases ht : List.mapM (fun x => l[x]?) t with
+      | none => simp [ha, ht] at h
+      | some r' =>
+        simp [ha, ht] at h
+        subst h
+        simp [ha, ih r' ht]
+
+theorem map_some_eq_range (l : List α) : l.map some = (List.range l.length).map (l[·]?) := by
+  apply List.ext_getElem?
+  intro i
+  simp only [List.getElem?_map, List.getElem?_range]
+  by_cases hi : i < l.length <;> simp [hi]
+
+theorem permuteBy_perm (σ : List Nat) (l r : List α) (h : permuteBy σ l = some r)
+    (hσ : σ.Perm (List.range l.length)) : r.Perm l := by
+  have h3 : (r.map some).Perm (l.map some) := by
+    rw [permuteBy_map_some σ l r h, map_some_eq_range l]; exact hσ.map _
+  exact (List.map_perm_map_iff (fun a b hab => Option.some.inj hab)).mp h3
+
+theorem permuteBy_id (l r : List α) (h : permuteBy (List.range l.length) l = some r) : r = l := by
+  have h1 := permuteBy_map_some _ l r h
+  rw [← map_some_eq_range l] at h1
+  exact (List.map_injective_iff.mpr (fun a b hab => Option.some.inj hab)) h1
+
+theorem permuteBy_some (σ : List Nat) (l : List α) (h : ∀ i ∈ σ, i < l.length) : ∃ r, permuteBy σ l = some r := by
+  unfold permuteBy
+  induction σ with
+  | nil => exact ⟨[], rfl⟩
+  | cons a t ih =>
+    obtain ⟨r, hr⟩ := ih (fun i hi => h i (by simp [hi]))
+    have ha : a < l.length := h a (by simp)
+    exact ⟨l[a] :: r, by simp [List.mapM_cons, List.getElem?_eq_getElem ha, hr]⟩
+
+theorem frame_length {β : Type} : ∀ (ps : List β) (rs : List (OptPair β)), rs.length = ps.length / 2 →
+    (frame ps rs).length = 2 * countNone rs + countSingle rs + 2 * countBoth rs + ps.length % 2
+  | [], [], _ => by simp [frame, countNone, countSingle, countBoth]
+  | [], _ :: _, h => by simp at h
+  | [_], [], _ => by simp [frame, countNone, countSingle, countBoth]
+  | [_], _ :: _, h => by simp at h
+  | _ :: _ :: rest, [], h => by simp at h; omega
+  | p1 :: p2 :: rest, r :: rs, h => by
+    have ih := frame_length rest rs (by simp at h; omega)
+    cases r <;> simp [frame, ih, countNone, countSingle, countBoth] <;> omega
+
+
+section
+variable {F : Type} [Add F] [Sub F] [Mul F]
+
+theorem deAdd_length (f : F) (xs as bs : List F) : (deAdd f xs as bs).length = xs.length := by
+  fun_induction deAdd f xs as bs <;> simp_all
+
+theorem dePairs_length (f : F) (base : List F) (rest : List (List F)) : (dePairs f base rest).length = base.length := by
+  fun_induction dePairs f base rest <;> simp_all [deAdd_length]
+
+theorem deChunks_spec (f : F) (size : Nat) (hs : 0 < size) : ∀ (fuel : Nat) (pop : List (List F)),
+    pop.length / size ≤ fuel →
+    (deChunks f size fuel pop).length = pop.length / size ∧
+    ∀ m ∈ deChunks f size fuel pop, ∃ b ∈ pop, m.length = b.length := by
+  intro fuel
+  induction fuel with
+  | zero =>
+    intro pop h
+    have : pop.length / size = 0 := Nat.le_zero.mp h
+    simp [deChunks, this]
+  | succ fuel ih =>
+    intro pop h
+    simp only [deChunks]
+    by_cases hlt : pop.length < size
+    · have : pop.length / size = 0 := Nat.div_eq_of_lt hlt
+      simp [hlt, this]
+    · have hne : ¬ (pop.length < size ∨ size = 0) := by omega
+      simp only [hne, if_false]
+      have hdiv : pop.length / size = (pop.length - size) / size + 1 := by
+        rw [Nat.div_eq pop.length size]; simp [hs, Nat.le_of_not_lt hlt]
+      cases htake : pop.take size with
+      | nil =>
+        have := congrArg List.length htake
+        rw [List.length_take] at this
+        simp only [List.length_nil] at this
+        omega
+      | cons base remainder =>
+        simp only
+        have hdrop : (pop.drop size).length / size ≤ fuel := by simp; omega
+        obtain ⟨ih1, ih2⟩ := ih (pop.drop size) hdrop
+        constructor
+        · simp [ih1]; omega
+        · intro m hm
+          simp only [List.mem_cons] at hm
+          rcases hm with rfl | hm
+          · refine ⟨base, ?_, dePairs_length f base remainder⟩
+            have : base ∈ pop.take size := by rw [htake]; simp
+            exact List.mem_of_mem_take this
+          · obtain ⟨b, hb, hl⟩ := ih2 m hm
+            exact ⟨b, List.mem_of_mem_drop hb, hl⟩
+
+theorem deMutation_format (y : Nat) (f : F) (pop : List (List F)) :
+    (deMutation y f pop = .err ↔ pop.length % (y * 2 + 1) ≠ 0) ∧
+    (∀ r, deMutation y f pop = .ok r →
+      pop.length % (y * 2 + 1) = 0 ∧ r.length = pop.length / (y * 2 + 1) ∧
+      ∀ m ∈ r, ∃ b ∈ pop, m.length = b.length) := by
+  unfold deMutation
+  simp only
+  by_cases h : pop.length % (y * 2 + 1) = 0
+  · simp only [h, ne_eq, not_true_eq_false, if_false]
+    refine ⟨by simp, ?_⟩
+    intro r hr
+    injection hr with hr
+    subst hr
+    have := deChunks_spec f (y * 2 + 1) (by omega) pop.length pop (Nat.div_le_self _ _)
+    exact ⟨trivial, this.1, this.2⟩
+  · simp only [ne_eq, h, not_false_eq_true, if_true]
+    refine ⟨by simp, ?_⟩
+    intro r hr; cases hr
+end
+
+theorem deCross_positionwise (dim : Nat) (mask : List Bool) (m b : List α) (h1 : dim ≤ m.length) (h2 : dim ≤ b.length) :
+    ∃ r, deCross dim mask m b = some r ∧ r.length = m.length ∧
+      ∀ i : Nat, r[i]? = m[i]? ∨ r[i]? = b[i]? := by
+  unfold deCross
+  have : ¬ (m.length < dim ∨ b.length < dim) := by omega
+  simp only [this, if_false]
+  exact ⟨_, rfl, gated_length _ _ _, fun i => gated_positionwise mask b m i⟩
+
+/-! ### legal witnesses of the permutation mutations -/
+
+
+theorem nodupNat_iff (l : List Nat) : nodupNat l = true ↔ l.Nodup := by
+  induction l with
+  | nil => simp [nodupNat]
+  | cons a t ih => simp [nodupNat, ih]
+
+theorem allBelow_iff (l : List Nat) (n : Nat) : allBelow l n = true ↔ ∀ i ∈ l, i < n := by
+  simp [allBelow]
+
+theorem swapMutation_legal (k : Nat) (sol : List α) (w : List Nat) (hk : 2 ≤ k) (hk2 : k ≤ sol.length)
+    (h : swapLegal k sol.length w = true) : ∃ r, swapMutation k sol w = .ok r ∧ r.Perm sol := by
+  simp only [swapLegal, Bool.and_eq_true, beq_iff_eq, nodupNat_iff, allBelow_iff] at h
+  obtain ⟨⟨hl, hn⟩, hr⟩ := h
+  obtain ⟨r, e, _⟩ := circularSwap_cyc sol w hn (by omega) hr
+  refine ⟨r, ?_, circularSwap_perm sol r w e⟩
+  unfold swapMutation
+  have : ¬ sol.length < k := by omega
+  simp [this, e]
+
+theorem inversion_legal (sol : List α) (w : Option (Nat × Nat)) (h : inversionLegal sol.length w = true) :
+    ∃ r, inversionMutation sol w = some r ∧ r.Perm sol := by
+  cases w with
+  | none => exact ⟨sol, rfl, List.Perm.refl _⟩
+  | some se =>
+    obtain ⟨s, e⟩ := se
+    simp only [inversionLegal, Bool.and_eq_true, decide_eq_true_eq] at h
+    exact reverseSlice_perm sol s e (by omega) (by omega)
+
+theorem insertion_legal (sol : List α) (w : Nat × Nat) (h : insertionLegal sol.length w = true) :
+    ∃ r, insertionMutation sol w = some r ∧ r.Perm sol := by
+  simp only [insertionLegal, Bool.and_eq_true, decide_eq_true_eq] at h
+  have hv : translocValid sol.length w.1 (w.1 + 1) w.2 = true := by
+    simp [translocValid, translocContract]; omega
+  exact ⟨_, translocateSlice_eq sol _ _ _ hv, translocSpec_perm sol _ _ _ (by omega)⟩
+
+theorem translocation_legal (sol : List α) (w : Option (Nat × Nat × Nat)) (h : translocationLegal sol.length w = true) :
+    ∃ r, translocationMutation sol w = some r ∧ r.Perm sol := by
+  cases w with
+  | none => exact ⟨sol, rfl, List.Perm.refl _⟩
+  | some sei =>
+    obtain ⟨s, e, i⟩ := sei
+    simp only [translocationLegal, Bool.and_eq_true, decide_eq_true_eq] at h
+    have hv : translocValid sol.length s e i = true := by
+      simp [translocValid, translocContract]; omega
+    exact ⟨_, translocateSlice_eq sol _ _ _ hv, translocSpec_perm sol _ _ _ (by omega)⟩
+
+theorem scramble_legal (rmZero : Bool) (sol : List α) (σ : List Nat) (h : scrambleLegal rmZero sol.length σ = true) :
+    ∃ r, scrambleMutation sol σ = some r ∧ r.Perm sol ∧ (rmZero = true → r = sol) := by
+  simp only [scrambleLegal, Bool.and_eq_true, Bool.or_eq_true, Bool.not_eq_true', beq_iff_eq] at h
+  obtain ⟨hp, hz⟩ := h
+  have hperm : σ.Perm (List.range sol.length) := List.isPerm_iff.mp hp
+  have hmem : ∀ i ∈ σ, i < sol.length := by
+    intro i hi; simpa using hperm.mem_iff.mp hi
+  obtain ⟨r, hr⟩ := permuteBy_some σ sol hmem
+  refine ⟨r, hr, permuteBy_perm σ sol r hr hperm, ?_⟩
+  intro hz'
+  rcases hz with hz | hz
+  · rw [hz'] at hz; cases hz
+  · subst hz
+    exact permuteBy_id sol r hr
+
 end MahfModel.Variation
